@@ -230,6 +230,10 @@ def reply_shape(ctx):
     for hname in ('handle_read', 'handle_change', 'handle_do'):
         h = m.method(D, hname, inherited=False)
         ok = any(dotted(c.func) == 'list' and c.args and isinstance(resolved(c.args[0], h.node), ast.Call) for c in calls_in(h.node))
+        if not ok and any(isinstance(r.value, ast.Call) and isinstance(r.value.func, ast.Attribute) and isinstance(r.value.func.value, ast.Name)
+                          and r.value.func.value.id != 'self' for r in body_walk(h.node) if isinstance(r, ast.Return) and r.value is not None):
+            ctx.undecided(f'{h.qualname}:data is the [value, qualifiers] list', h.node, 'the reply is put together by a method of a helper object', h)
+            continue
         ctx.check(ok, f'{h.qualname}:data is the [value, qualifiers] list', h.node, 'list(<pair>)', 'reply data is not built from the pair', h)
 
 
@@ -619,6 +623,7 @@ def read_path_refusals_and_constant_side(ctx):
     m = ctx.m
     f = m.method(D, '_getParameterValue', inherited=False)
     ctx.analysed(f)
+    c04.lookups_done_elsewhere(m, f)
     cfg = CFG(f.node, m, f.module)
     rets = [i for n in body_walk(f.node) if isinstance(n, ast.Return) for i in cfg.ids(n)]
     c04._refusal(ctx, f, cfg, rets, lambda s: s.endswith(' is None') and 'module' in s, 'NoSuchModuleError', 'module-exists refusal', '<module> is None')
@@ -681,3 +686,33 @@ def an_unknown_name_is_not_taken_for_no_name(ctx):
                 ctx.ok(key, a, 'an undescribed name translates to something the parameter test refuses', g)
     if not n:
         raise AnchorMissing('translation of the wire name (accessiblename2attr.get) not found in handle_activate')
+
+
+@rule('C06.R12', min_instances=1)
+def a_value_that_failed_its_conversion_is_not_cached(ctx):
+    """the cache funnel (Module.announceUpdate): the cached value is what later updates and read replies export - "every value
+    the node ever emits for a parameter is importable with the described datainfo".  From a handler of the try around the
+    datatype conversion the store `pobj.value = ...` is not reachable (flags bound to literals are followed): a value that the
+    datatype refused never enters the cache"""
+    m = ctx.m
+    f = roles.cache_funnel(m)
+    ctx.analysed(f)
+    cfg = CFG(f.node, m, f.module)
+    stores = [s for t, v, s in attr_stores(f.node) if t.attr == 'value' and dotted(t.value) != 'self']
+    convs = [c for c in calls_in(f.node) if (call_attr(c) == 'datatype' or (isinstance(c.func, ast.Attribute) and c.func.attr in ('validate',) and 'datatype' in src(c.func)))]
+    if not stores or not convs:
+        raise AnchorMissing('store of pobj.value / the conversion pobj.datatype(value) not found in the cache funnel')
+    sids = {i for s in stores for i in cfg.node_of(s)}
+    n = 0
+    for c in convs:
+        for t, part in enclosing_tries(c):
+            if part != 'body':
+                continue
+            for h in t.handlers:
+                n += 1
+                hit = sids & reach_with_flags(cfg, cfg.ids(h), avoid=[])
+                ctx.check(not hit, f'{f.qualname}:a refused value is not stored', h, 'no store of the cache value is reachable from the handler of the failed conversion',
+                          f'after `{src(c)}` failed, `{src(stores[0])}` is still reached: the value the datatype refused is cached, and the next '
+                          'read reply / update exports a value the described datainfo does not accept', f)
+    if not n:
+        raise AnchorMissing('the conversion in the cache funnel is not inside a try')
